@@ -293,6 +293,22 @@ def jobs(tier):
 
 # ------------------------------------------------------------- concrete oracle
 def replay_family(p):
+    """on the solver's inputs, then -- for frequency profiles -- on a grid that does not contain the line centre
+    (a profile must be a pointwise function of (f, f_center): evaluating it on other columns must not change it)"""
+    bad, msg = _replay_family(p)
+    v = p.get('vals') or {}
+    if not bad and (p['name'].endswith('_f') or p['name'].startswith('sinc2')) and v.get('width') and 'fc' in v:
+        w = float(v['width'])
+        fc0 = float(np.ravel(v['fc'])[0])
+        for offs in ([0.3, 0.9, 2.1, -1.4], [0.45], [-0.2, 0.0, 0.2]):
+            v2 = dict(v, f=[fc0 + w * o for o in offs], fc=[fc0] * len(offs))
+            bad, msg = _replay_family(dict(p, vals=v2))
+            if bad:
+                return bad, f"on columns at {offs} widths from the centre: {msg}"
+    return bad, msg
+
+
+def _replay_family(p):
     import setigen as stg
     from scipy.special import wofz
     name, v = p['name'], p['vals']
